@@ -2,8 +2,10 @@ package simhttp
 
 import (
 	"fmt"
+	"io"
 	"net/http"
 	"strconv"
+	"time"
 	"verif/sim/core"
 )
 
@@ -22,6 +24,10 @@ type Canned struct {
 	// answering (reference servers need the bytes); the bytes are kept in
 	// Exchange.Up.
 	ReadRequest bool
+	// DrainBeforeEnd: the server flushes this (partial) answer at once, then
+	// reads the request to its end before it ends the response - as handlers
+	// that answer early commonly do.
+	DrainBeforeEnd bool
 }
 
 func (n *Net) doCanned(c *Call, req *http.Request) (*http.Response, error) {
@@ -47,8 +53,18 @@ func (n *Net) doCanned(c *Call, req *http.Request) (*http.Response, error) {
 			can = r
 		}
 	}
+	drain := can.DrainBeforeEnd && !can.ReadRequest
 	e.mu.Lock()
-	e.HandlerDone = true
+	e.HandlerDone = !drain
+	if drain && c.K.HTTP2 && can.Status > 299 {
+		// net/http's HTTP/2 transport stops uploading the request body when it
+		// sees a status above 299, and tells the server so only when the
+		// response body is closed or has ended
+		e.uploadStopped = true
+		e.closedReq = true
+		e.ClosedReqStep = e.Call.S.StepNow()
+		closeBody(e.clientReq)
+	}
 	e.committed = true
 	e.Status = can.Status
 	e.RespHeader = can.Header.Clone()
@@ -57,10 +73,33 @@ func (n *Net) doCanned(c *Call, req *http.Request) (*http.Response, error) {
 	}
 	e.Trailer = can.Trailer
 	e.setCommitFlag()
-	e.setOverFlag()
+	if !drain {
+		e.setOverFlag()
+	}
 	e.mu.Unlock()
 	_ = e.Down.Push(can.Body, true)
-	e.Down.Finish(can.EndErr)
+	if drain {
+		endErr := can.EndErr
+		n.S.Go(c.ID+"/server.drain", func(*core.Task) {
+			// the server: reads the request to its end, then ends the response
+			buf := make([]byte, 32<<10)
+			var err error
+			for err == nil {
+				_, err = e.Up.Read(buf, nil)
+			}
+			if err != io.EOF {
+				return // reset
+			}
+			e.mu.Lock()
+			defer e.mu.Unlock()
+			if e.abortErr == nil {
+				e.HandlerDone = true
+				e.Down.Finish(endErr)
+			}
+		})
+	} else {
+		e.Down.Finish(can.EndErr)
+	}
 	n.S.Go(c.ID+"/pump", func(*core.Task) { e.runPump() })
 	go e.runWatcher()
 	n.S.Gate(c.ID+"/do", &e.dp)
@@ -109,3 +148,14 @@ func (n *Net) ServeRaw(c *Call, method, rawurl string, header http.Header, body 
 	e.runHandler()
 	return e
 }
+
+// resumedPred: the stalled upload may go on (it never does) or the exchange is over.
+type resumedPred struct{ e *Exchange }
+
+//go:norace
+//go:noinline
+func (p *resumedPred) Ready(time.Time) bool { return p.e.overFlag }
+
+//go:norace
+//go:noinline
+func (p *resumedPred) Param(*core.Tape) int { return 0 }
